@@ -426,6 +426,9 @@ class World:
         ids = self.part_ids(cpu)
         n = len(ids)
         hl = pp.get("header_lengths", [16, 8, 8, 8, 4])
+        if pp.get("header_lengths_by_cpu"):
+            # (the unused header records need not have the same size in every file of one output)
+            hl = pp["header_lengths_by_cpu"][(cpu - 1) % len(pp["header_lengths_by_cpu"])]
         out = [rec(I(self.ncpu)), rec(I(self.ndim)), rec(I(n))]
         for k in range(5):
             out.append(rec(bytes([(k * 37 + j) % 251 for j in range(hl[k])])))
